@@ -391,3 +391,7 @@ Qed.
 Lemma rne_dy_signed_cases f zs M e :
   rne_dy_signed f zs M e = if M =? 0 then zero_bits f zs else if M <? 0 then rne_dy_pos f true (- M) e else rne_dy_pos f false M e.
 Proof. reflexivity. Qed.
+
+Print Assumptions encode_canon_decode.
+Print Assumptions rne_dy_pos_correct.
+Print Assumptions rne_pos_correct.
